@@ -199,10 +199,21 @@ func genFaultBase(r *Run) (d Doc, desc string) {
 		desc = "large"
 	case 8: // dense structurals, then a long token without any structural inside: an index buffer can come up empty
 		n := 1300 + c.Intn("dprefix", 3000)
+		if c.Intn("dalign", 2) == 0 {
+			// the property names the 1408-entry index buffers: put the token start on such a boundary (+-3)
+			n = 1408*(1+c.Intn("dk1408", 3)) - 1 + c.Intn("dk1408d", 7) - 3
+		}
 		var b bytes.Buffer
 		b.WriteByte('[')
 		for b.Len() < n {
-			b.WriteString([]string{"[],", "{},", "0,", "[[]],"}[c.Intn("dp", 4)])
+			item := []string{"[],", "{},", "0,", "[[]],"}[c.Intn("dp", 4)]
+			if b.Len()+len(item) > n {
+				item = "0,0,0,0,"[:2*((n-b.Len())/2)]
+				if item == "" {
+					item = "0,"
+				}
+			}
+			b.WriteString(item)
 		}
 		tail := 1 + c.Intn("dtail", 700)
 		switch c.Intn("dtailkind", 3) {
